@@ -646,6 +646,74 @@ def run(idx: ProgramIndex, rep: Report, tier: str, selftest: bool = True):
                                           f"reads it: the call returns the same result for every value of `{p_}`, where torch on the dense "
                                           "matrix does not (the argument is silently ignored instead of honoured or refused)", reg.loc()))
 
+    # ---- T10: a parameter that only steers argument checks is pinned on every returning path -------
+    # If a handler reads a parameter in nothing but the tests that guard its `raise` statements, the value it returns does not
+    # depend on the parameter; torch's does.  So every path that returns must have established that the parameter equals
+    # one of the constants it was compared with (its default): a returning path that is consistent with the parameter being
+    # different from ALL of them silently ignores the argument.
+    rep.rule("C15.T10", "a parameter that is only tested (never used in the value) is pinned to a tested constant on every returning path", floor=1)
+    from ..cfg import CFG
+    from ..conds import alternatives as _alts, atom as _atom, consistent as _consistent
+
+    for m in names:
+        reg = base.methods.get(m)
+        if reg is None or not isinstance(reg.node, ast.FunctionDef):
+            continue
+        a = reg.node.args
+        params = [x.arg for x in list(a.posonlyargs) + list(a.args)][1:] + [x.arg for x in a.kwonlyargs]
+        # names read inside tests of if statements / conditional expressions, and names read anywhere else (outside raise)
+        in_tests, in_raise = set(), set()
+        for n_ in ast.walk(reg.node):
+            if isinstance(n_, (ast.If, ast.IfExp, ast.While)):
+                in_tests |= {id(x) for x in ast.walk(n_.test)}
+            if isinstance(n_, ast.Raise):
+                in_raise |= {id(x) for x in ast.walk(n_)}
+            if isinstance(n_, ast.Assert):
+                in_tests |= {id(x) for x in ast.walk(n_.test)}
+        tested = {x.id for x in ast.walk(reg.node) if isinstance(x, ast.Name) and id(x) in in_tests and isinstance(x.ctx, ast.Load)}
+        valued = {x.id for x in ast.walk(reg.node) if isinstance(x, ast.Name) and isinstance(x.ctx, ast.Load)
+                  and id(x) not in in_tests and id(x) not in in_raise}
+        only_tested = [p_ for p_ in params if p_ in tested and p_ not in valued]
+        if not only_tested:
+            continue
+        try:
+            cfg_ = CFG(reg)
+        except Exception:
+            continue
+        paths = list(cfg_.acyclic_paths(limit=400))
+        for p_ in only_tested:
+            # the atoms `p == c` that occur in the tests
+            atoms = set()
+            for nd in cfg_.nodes.values():
+                if nd.kind == "test" and nd.ast is not None:
+                    for pol_ in (True, False):
+                        for alt in _alts(nd.ast, pol_):
+                            for lit in alt:
+                                e_, _ = lit
+                                if isinstance(e_, ast.Compare) and len(e_.ops) == 1 and isinstance(e_.ops[0], (ast.Eq, ast.NotEq, ast.Is, ast.IsNot)) \
+                                        and isinstance(e_.left, ast.Name) and e_.left.id == p_ and isinstance(e_.comparators[0], (ast.Constant, ast.UnaryOp)):
+                                    atoms.add(_atom(lit)[0])
+            sample = {"handler": f"LinearOperator.{m}", "parameter": p_, "compared_with": sorted(atoms)}
+            if not atoms:
+                rep.ok("C15.T10", {**sample, "note": "tested in another form (not decided)"})
+                continue
+            assume = {a_: False for a_ in atoms}
+            witness = None
+            for pth in paths:
+                tests = [(cfg_.nodes[a_].ast, cfg_.g[a_][b_].get("pol")) for a_, b_ in zip(pth, pth[1:])
+                         if cfg_.nodes[a_].kind == "test" and cfg_.g[a_][b_].get("pol") is not None and cfg_.nodes[a_].ast is not None]
+                if _consistent(tests, assume):
+                    witness = [("" if pol_ else "not ") + short(t_, 50) for t_, pol_ in tests]
+                    break
+            if witness is None:
+                rep.ok("C15.T10", sample)
+            else:
+                rep.bad("C15.T10", Finding(PROP, "C15.T10", f"LinearOperator.{m}", f"parameter `{p_}` can be ignored on a returning path",
+                                           f"LinearOperator.{m} reads `{p_}` only in the tests that guard its raise statements, yet it can return "
+                                           f"on a path that is consistent with `{p_}` being different from every constant it is compared with "
+                                           f"({'; '.join(witness) or 'no test'}): the argument is silently ignored where torch on the dense "
+                                           "matrix honours it", reg.loc()), sample)
+
     # ---- T3 ----------------------------------------------------------------------------------------
     check_torch_function(idx, rep, base)
 
